@@ -16,20 +16,33 @@
 // porcupine against the same model (FastForward and direct store reads are
 // operations of that history too).
 //
-// A server-side pre-hook (miniredis server.Hook) counts the EVALSHA/EVAL
-// commands that reach the script engine: a call that returned without error
-// must have been executed exactly once (go-redis re-sends a command after a
-// wall-clock I/O timeout, which does happen on a starved machine; such a
-// history is abandoned as inconclusive, never judged). The hook also injects
-// store faults: error replies, retriable LOADING replies, NOSCRIPT (forces the
-// EVAL fallback), failures of the GET/SET/DEL inside the scripts; a second
-// miniredis is closed and restarted for network-level outages.
+// Transport accounting: a client-side hook (the go-zero client's public
+// redis.WithHook option; it sits inside the breaker hook, so it sees every
+// command that is handed to the transport, once, whatever go-redis retries
+// underneath) counts the commands the client ISSUED, and a server-side pre-hook
+// (miniredis server.Hook) counts the client commands that ARRIVED (commands run
+// by a Lua script from inside the server are not counted). Which commands a
+// call uses is not the harness's business (only recorded); but when more
+// commands arrived than were issued, go-redis has re-sent one (it does so after
+// a wall-clock I/O timeout, which does happen on a starved machine): only such
+// a history, with the retry evidenced, is abandoned as inconclusive. The server
+// hook also injects store faults: error replies, retriable LOADING replies,
+// NOSCRIPT (forces the EVAL fallback), failures of GET/SET/DEL (inside the
+// scripts or not); a second miniredis is closed and restarted for network-level
+// outages.
+//
+// The client-side hook is also the placement point of the "placement" family:
+// a block of whole operations of other instances (FastForward past the lease,
+// B.Acquire, ...) is executed immediately before the k-th store command of one
+// Acquire/Release call, for every k the call issues, and the outcome must be
+// explained by the model with the call taking effect at one single point.
 package c19
 
 import (
 	"context"
 	"errors"
 	"fmt"
+	"reflect"
 	"runtime"
 	"sort"
 	"strings"
@@ -41,6 +54,7 @@ import (
 	"github.com/alicebob/miniredis/v2"
 	"github.com/alicebob/miniredis/v2/server"
 	"github.com/anishathalye/porcupine"
+	red "github.com/redis/go-redis/v9"
 	"github.com/zeromicro/go-zero/core/breaker"
 	"github.com/zeromicro/go-zero/core/logx"
 	"github.com/zeromicro/go-zero/core/stores/redis"
@@ -59,12 +73,12 @@ const (
 // fault modes of the server-side hook
 const (
 	fNone     = iota
-	fErrReply // every script command answers "ERR ..." (not retried by go-redis)
-	fLoading  // every script command answers "LOADING ..." (go-redis retries 3x, then fails)
+	fErrReply // every command of the client answers "ERR ..." (not retried by go-redis)
+	fLoading  // every command of the client answers "LOADING ..." (go-redis retries 3x, then fails)
 	fNoScript // EVALSHA answers NOSCRIPT: the client falls back to EVAL (not an error)
-	fInnerGet // the GET inside the scripts fails: both scripts abort before writing
-	fInnerSet // the SET inside the lock script fails
-	fInnerDel // the DEL inside the release script fails
+	fInnerGet // every GET fails (today: inside the scripts, both abort before writing)
+	fInnerSet // every SET fails (today: inside the lock script)
+	fInnerDel // every DEL fails (today: inside the release script)
 	fClosed   // the server is closed (network errors); flaky server only
 	nFaults
 )
@@ -72,22 +86,26 @@ const (
 var faultNames = [...]string{"none", "err-reply", "loading-reply", "noscript", "inner-get-fails", "inner-set-fails", "inner-del-fails", "server-closed"}
 
 type srv struct {
-	mr     *miniredis.Miniredis
-	store  *redis.Redis
-	mode   atomic.Int32
-	passed atomic.Int64 // EVALSHA/EVAL commands the hook let through to the script engine
-	dirty  bool         // the client's breaker may still remember injected failures
+	mr    *miniredis.Miniredis
+	store *redis.Redis
+	mode  atomic.Int32
+	cli   *cliHook
+	// client commands that arrived at the server (script-internal commands and
+	// connection set-up excluded); compared with cli.sent, see retried()
+	arrived atomic.Int64
+	dirty   bool // the client's breaker may still remember injected failures
 
-	// wall-clock arrival times and connections of the last script commands; only
+	// wall-clock arrival times and connections of the last client commands; only
 	// quoted in "inconclusive" messages to show that a re-execution was a
 	// client-side retry after go-redis's 3 s I/O timeout
 	lastMu sync.Mutex
-	last   [4]arrival
+	last   [5]arrival
 }
 
 type arrival struct {
 	at   time.Time
 	peer *server.Peer
+	cmd  string
 }
 
 func (s *srv) lastArrivals() string {
@@ -98,20 +116,115 @@ func (s *srv) lastArrivals() string {
 		if s.last[i-1].at.IsZero() {
 			continue
 		}
-		fmt.Fprintf(&b, " +%dms(same conn: %v)", s.last[i].at.Sub(s.last[i-1].at).Milliseconds(), s.last[i].peer == s.last[i-1].peer)
+		fmt.Fprintf(&b, " %s +%dms(same conn: %v) %s;", s.last[i-1].cmd, s.last[i].at.Sub(s.last[i-1].at).Milliseconds(), s.last[i].peer == s.last[i-1].peer, s.last[i].cmd)
 	}
-	return "gaps between the last script commands at the server:" + b.String()
+	return "last client commands at the server with arrival gaps:" + b.String()
+}
+
+// cliHook is registered with the go-zero client through redis.WithHook. It is
+// the innermost hook (go-zero adds its duration and breaker hooks first): it
+// runs once per command that is really handed to the transport and not again
+// for go-redis's internal retries.
+type cliHook struct {
+	sent  atomic.Int64 // commands issued by the client
+	armed atomic.Bool  // placement armed (sequential use only)
+
+	mu    sync.Mutex
+	at    int      // run fn immediately before the at-th (0-based) command seen while armed
+	seen  int      // commands seen while armed
+	fired bool     // fn was run
+	cmds  []string // names of the commands seen while armed
+	fn    func()
+}
+
+func (h *cliHook) arm(at int, fn func()) {
+	h.mu.Lock()
+	h.at, h.seen, h.fired, h.cmds, h.fn = at, 0, false, nil, fn
+	h.mu.Unlock()
+	h.armed.Store(true)
+}
+
+func (h *cliHook) disarm() (fired bool, cmds []string) {
+	h.armed.Store(false)
+	h.mu.Lock()
+	defer h.mu.Unlock()
+	h.fn = nil
+	return h.fired, h.cmds
+}
+
+func (h *cliHook) before(name string) {
+	h.mu.Lock()
+	var fn func()
+	if h.seen == h.at && !h.fired {
+		h.fired = true
+		fn = h.fn
+	}
+	h.seen++
+	h.cmds = append(h.cmds, name)
+	h.mu.Unlock()
+	if fn != nil {
+		h.armed.Store(false) // the commands of the placed block itself are not boundaries
+		fn()
+		h.armed.Store(true)
+	}
+}
+
+func (h *cliHook) DialHook(next red.DialHook) red.DialHook { return next }
+
+func (h *cliHook) ProcessHook(next red.ProcessHook) red.ProcessHook {
+	return func(ctx context.Context, cmd red.Cmder) error {
+		if h.armed.Load() {
+			h.before(cmd.Name())
+		}
+		h.sent.Add(1)
+		return next(ctx, cmd)
+	}
+}
+
+func (h *cliHook) ProcessPipelineHook(next red.ProcessPipelineHook) red.ProcessPipelineHook {
+	return func(ctx context.Context, cmds []red.Cmder) error {
+		// a pipeline / transaction goes out as one unit: the only boundary is before the unit
+		if h.armed.Load() && len(cmds) > 0 {
+			h.before(fmt.Sprintf("pipeline[%d]:%s", len(cmds), cmds[0].Name()))
+		}
+		h.sent.Add(int64(len(cmds)))
+		return next(ctx, cmds)
+	}
+}
+
+// connection set-up and transaction framing: sent by go-redis below the hooks
+var notClientCmd = map[string]bool{"HELLO": true, "CLIENT": true, "AUTH": true, "SELECT": true, "READONLY": true, "MULTI": true, "EXEC": true, "QUIT": true}
+
+// fromScript reports whether the server is dispatching a command of a running
+// Lua script (redis.call) rather than one that a client sent: miniredis hands
+// those to the same pre-hook with a throw-away peer whose context is marked
+// "nested". The field is unexported; newSrv verifies that this reading works.
+func fromScript(p *server.Peer) bool {
+	v := reflect.ValueOf(p.Ctx)
+	if v.Kind() != reflect.Ptr || v.IsNil() || v.Elem().Kind() != reflect.Struct {
+		return false
+	}
+	f := v.Elem().FieldByName("nested")
+	return f.IsValid() && f.Kind() == reflect.Bool && f.Bool()
 }
 
 func (s *srv) hook(p *server.Peer, cmd string, args ...string) bool {
+	client := !notClientCmd[cmd] && !fromScript(p) // a command the go-zero client sent
+	if client {
+		s.arrived.Add(1)
+		s.lastMu.Lock()
+		copy(s.last[:], s.last[1:])
+		s.last[len(s.last)-1] = arrival{time.Now(), p, cmd}
+		s.lastMu.Unlock()
+	}
 	switch s.mode.Load() {
 	case fErrReply:
-		if cmd == "EVALSHA" || cmd == "EVAL" {
+		if client && cmd != "PING" {
 			p.WriteError("ERR verif: injected store outage")
 			return true
 		}
 	case fLoading:
-		if cmd == "EVALSHA" || cmd == "EVAL" {
+		if client && cmd != "PING" {
 			p.WriteError("LOADING verif: injected store outage")
 			return true
 		}
@@ -136,36 +249,53 @@ func (s *srv) hook(p *server.Peer, cmd string, args ...string) bool {
 			return true
 		}
 	}
-	if cmd == "EVALSHA" || cmd == "EVAL" {
-		s.passed.Add(1)
-		s.lastMu.Lock()
-		copy(s.last[:], s.last[1:])
-		s.last[len(s.last)-1] = arrival{time.Now(), p}
-		s.lastMu.Unlock()
-	}
 	return false
 }
 
+// surplus is the evidence of a client-side re-send since the given counter
+// readings: the number of commands that arrived at the server beyond those the
+// client issued (0 on a healthy transport once every issued command has been
+// answered, whatever commands go-zero chooses to use).
+func (s *srv) surplus(sent0, arr0 int64) int64 {
+	return (s.arrived.Load() - arr0) - (s.cli.sent.Load() - sent0)
+}
+
 func newSrv() *srv {
-	s := &srv{mr: miniredis.NewMiniRedis()}
+	s := &srv{mr: miniredis.NewMiniRedis(), cli: &cliHook{}}
 	if err := s.mr.Start(); err != nil {
 		panic(err)
 	}
 	s.mr.Server().SetPreHook(s.hook)
-	s.store = redis.New(s.mr.Addr())
+	// one go-redis client per address inside go-zero, and this address is new: the hook is installed
+	s.store = redis.New(s.mr.Addr(), redis.WithHook(s.cli))
 	// load both scripts now (first use costs EVALSHA -> NOSCRIPT -> EVAL), so that from
-	// here on one successful call is exactly one script command at the server
+	// here on a call on today's go-zero is one script command at the server
 	w := redis.NewRedisLock(s.store, "c19:warmup")
-	for i := 0; i < 50; i++ {
+	warm := false
+	for i := 0; i < 50 && !warm; i++ {
 		a, err1 := w.Acquire()
 		b, err2 := w.Release()
 		_, _ = a, b
-		if err1 == nil && err2 == nil {
+		warm = err1 == nil && err2 == nil
+		if !warm {
+			time.Sleep(20 * time.Millisecond)
+		}
+	}
+	if !warm {
+		panic("c19: cannot reach miniredis through the go-zero client")
+	}
+	// self-check of the accounting: a script that runs two commands inside the server is
+	// ONE issued and ONE arrived command (fails if the client hook is not installed or
+	// script-internal commands cannot be told from client commands any more)
+	for i := 0; i < 50; i++ {
+		s0, a0 := s.cli.sent.Load(), s.arrived.Load()
+		_, err := s.store.Eval(`redis.call("EXISTS", KEYS[1]); return redis.call("EXISTS", KEYS[1])`, []string{"c19:selfcheck"})
+		if err == nil && s.cli.sent.Load()-s0 == 1 && s.arrived.Load()-a0 == 1 {
 			return s
 		}
 		time.Sleep(20 * time.Millisecond)
 	}
-	panic("c19: cannot reach miniredis through the go-zero client")
+	panic("c19: transport accounting self-check failed: issued/arrived command counts of one EVAL are not 1/1 (client hook not installed, or miniredis internals changed)")
 }
 
 func (s *srv) closeServer() {
@@ -203,6 +333,27 @@ var (
 
 func leaseMs(seconds int) int64 { return int64(seconds)*1000 + toleranceMs }
 
+// leaseClass separates, in violation keys, leases whose millisecond value does
+// not fit 31 bits (about 24.8 days and longer) from ordinary ones.
+func leaseClass(ms int64) string {
+	if ms >= 1<<31 {
+		return "/long-lease"
+	}
+	return ""
+}
+
+// goSide is the advance of the Go-side virtual clock (client breaker windows,
+// duration hook) that accompanies a store-time advance of d ms. Leases live in
+// store time only; the Go-side clock follows up to an hour per step, which is far
+// beyond every window the client keeps, so that decades-long leases cannot
+// overflow it.
+func goSide(d int64) time.Duration {
+	if d > 3600_000 {
+		d = 3600_000
+	}
+	return time.Duration(d) * time.Millisecond
+}
+
 // ---------------------------------------------------------------- sequential runner
 
 type seqRun struct {
@@ -228,9 +379,14 @@ type seqRun struct {
 	lateRelease   bool
 	faultOps      int
 
-	// script executions at the server: base = counter at the start of the history,
-	// exp = what the calls made so far account for
-	base, exp int64
+	// transport accounting (see srv.surplus): counter readings at the start of the
+	// history, and the surplus that failed calls (which may or may not have reached
+	// the server, and may have been retried on purpose) have left behind
+	sent0, arr0, slack int64
+
+	// placement family: non-trivial iff operations of other instances really ran
+	// between two store commands / before the first store command of a call
+	isPlacement, placedNontrivial bool
 }
 
 func newSeqRun(c *kit.Case, s *srv, n int) *seqRun {
@@ -245,7 +401,7 @@ func newSeqRun(c *kit.Case, s *srv, n int) *seqRun {
 	// start every history with an empty breaker window
 	vclock.Advance(11 * time.Second)
 	s.dirty = false
-	r.base = s.passed.Load()
+	r.sent0, r.arr0 = s.cli.sent.Load(), s.arrived.Load()
 	return r
 }
 
@@ -256,15 +412,25 @@ func (r *seqRun) witness(detail string) map[string]any {
 		"model_holder": r.holder, "model_remaining_ms": r.rem}
 }
 
-// accounted reports whether the server executed exactly the script commands
-// that the calls of this history account for. It did not if go-redis re-sent a
-// command after a wall-clock I/O timeout (starved machine): the timed-out
-// attempt may even be executed later, behind the harness's back.
-func (r *seqRun) accounted() bool { return r.s.passed.Load()-r.base == r.exp }
+// accounted reports whether exactly the commands that the client issued in
+// this history arrived at the server. More arrive if go-redis re-sent a command
+// after a wall-clock I/O timeout (starved machine): the timed-out attempt may
+// even be executed later, behind the harness's back. Which commands a call
+// uses, and how many, does not matter here.
+func (r *seqRun) accounted() bool { return r.s.surplus(r.sent0, r.arr0) == r.slack }
+
+// resync accepts the present surplus: after a call that failed (injected
+// retriable fault, closed server, cancelled context) issued and arrived commands
+// legitimately differ.
+func (r *seqRun) resync() { r.slack = r.s.surplus(r.sent0, r.arr0) }
+
+func (r *seqRun) retryEvidence() string {
+	return fmt.Sprintf("%d more commands arrived at the server than the client issued in this history: client-side I/O retry; %s", r.s.surplus(r.sent0, r.arr0)-r.slack, r.s.lastArrivals())
+}
 
 func (r *seqRun) viol(key, what string) {
 	if !r.accounted() {
-		r.inconclusive(fmt.Sprintf("script executions at the server do not add up (%d seen, %d accounted for: client-side I/O retry; %s); not judged: %s", r.s.passed.Load()-r.base, r.exp, r.s.lastArrivals(), key))
+		r.inconclusive(r.retryEvidence() + "; not judged: " + key)
 		return
 	}
 	r.c.Viol(key, what, r.witness(what))
@@ -328,7 +494,7 @@ func (r *seqRun) errExpected(isAcquire bool, i int) bool {
 // onError handles an operation that returned an error: no grant, and the store
 // is either untouched or as if the script had run (both are within the statement).
 func (r *seqRun) onError(opname string, i int, ok bool, err error, cancelled bool, asIfHolder int, asIfRem int64) {
-	r.exp = r.s.passed.Load() - r.base // a failed call may have been executed or not
+	r.resync() // a failed call may have been executed or not
 	faulty := r.s.mode.Load() != fNone && r.s.mode.Load() != fNoScript
 	brk := errors.Is(err, breaker.ErrServiceUnavailable)
 	if ok {
@@ -336,6 +502,19 @@ func (r *seqRun) onError(opname string, i int, ok bool, err error, cancelled boo
 		return
 	}
 	if !faulty && !cancelled && !(brk && r.s.dirty) {
+		// No fault is injected. A transport error (I/O timeout on a starved machine) is
+		// infrastructure; an error REPLY of the healthy store is not: the store refused the
+		// command go-zero built for a legal configuration (e.g. a lease that wrapped to a
+		// non-positive PX), so the instance can never get the free key / its lease.
+		var reply red.Error
+		if errors.As(err, &reply) && !brk {
+			cls := ""
+			if opname == "acquire" {
+				cls = leaseClass(leaseMs(r.secs[i]))
+			}
+			r.viol("C19/error/store-rejected-"+opname+cls, fmt.Sprintf("%s by instance %d (seconds=%d) on a healthy store (no fault injected) was rejected by the store: %v", opname, i, r.secs[i], err))
+			return
+		}
 		r.inconclusive(fmt.Sprintf("%s by instance %d: unexpected infrastructure error without injected fault: %v", opname, i, err))
 		return
 	}
@@ -370,6 +549,7 @@ func (r *seqRun) acquire(i int, cancelled bool) {
 		ctx = c
 		name = "AcquireCancelledCtx"
 	}
+	s0 := r.s.cli.sent.Load()
 	ok, err := r.lk[i].AcquireCtx(ctx)
 	r.log = append(r.log, fmt.Sprintf("%s(%d)=%v%s", name, i, ok, errStr(err)))
 	want := r.holder < 0 || r.holder == i
@@ -383,11 +563,12 @@ func (r *seqRun) acquire(i int, cancelled bool) {
 		return
 	}
 	expErr := r.errExpected(true, i) || cancelled
-	r.exp++
 	if !r.accounted() {
-		r.inconclusive(fmt.Sprintf("a successful Acquire was not exactly one script execution at the server (%d seen, %d accounted for: client-side I/O retry; %s)", r.s.passed.Load()-r.base, r.exp, r.s.lastArrivals()))
+		r.inconclusive("Acquire returned without error, but " + r.retryEvidence())
 		return
 	}
+	r.c.Obs("acquire_calls_ok", 1)
+	r.c.Obs("acquire_calls_ok_store_commands", r.s.cli.sent.Load()-s0)
 	if expErr && !ok && r.matches(r.store(), r.holder, r.rem) {
 		// the failure was swallowed as a plain denial; harmless for the statement
 		r.c.Obs("store_error_reported_as_denial", 1)
@@ -443,11 +624,11 @@ func (r *seqRun) acquire(i int, cancelled bool) {
 	}
 	r.c.Obs("lease_ttl_readings", 1)
 	if st.ttl == 0 {
-		r.viol("C19/lease/no-ttl/"+kind, fmt.Sprintf("after Acquire by instance %d (seconds=%d) the key has no expiry", i, r.secs[i]))
+		r.viol("C19/lease/no-ttl/"+kind+leaseClass(lease), fmt.Sprintf("after Acquire by instance %d (seconds=%d) the key has no expiry", i, r.secs[i]))
 		return
 	}
 	if st.ttl != lease || st.sub {
-		r.viol("C19/lease/wrong-ttl/"+kind, fmt.Sprintf("after Acquire by instance %d with seconds=%d the lease is %d ms, want %d ms", i, r.secs[i], st.ttl, lease))
+		r.viol("C19/lease/wrong-ttl/"+kind+leaseClass(lease), fmt.Sprintf("after Acquire by instance %d with seconds=%d the lease is %d ms, want %d ms", i, r.secs[i], st.ttl, lease))
 		return
 	}
 	r.holder, r.rem = i, lease
@@ -472,6 +653,7 @@ func (r *seqRun) release(i int, cancelled bool) {
 	case r.holder < 0 && r.lostByExpiry[i]:
 		class = "expired-holder-free-key"
 	}
+	s0 := r.s.cli.sent.Load()
 	ok, err := r.lk[i].ReleaseCtx(ctx)
 	r.log = append(r.log, fmt.Sprintf("%s(%d)=%v%s", name, i, ok, errStr(err)))
 	want := r.holder == i
@@ -484,11 +666,12 @@ func (r *seqRun) release(i int, cancelled bool) {
 		return
 	}
 	expErr := r.errExpected(false, i) || cancelled
-	r.exp++
 	if !r.accounted() {
-		r.inconclusive(fmt.Sprintf("a successful Release was not exactly one script execution at the server (%d seen, %d accounted for: client-side I/O retry; %s)", r.s.passed.Load()-r.base, r.exp, r.s.lastArrivals()))
+		r.inconclusive("Release returned without error, but " + r.retryEvidence())
 		return
 	}
+	r.c.Obs("release_calls_ok", 1)
+	r.c.Obs("release_calls_ok_store_commands", r.s.cli.sent.Load()-s0)
 	st := r.store()
 	if expErr && !ok && r.matches(st, r.holder, r.rem) {
 		r.c.Obs("store_error_reported_as_denial", 1)
@@ -543,7 +726,7 @@ func (r *seqRun) ff(d int64) {
 		r.c.Obs("fastforward_to_lease_end_pm_1ms", 1)
 	}
 	r.s.mr.FastForward(time.Duration(d) * time.Millisecond)
-	vclock.Advance(time.Duration(d) * time.Millisecond)
+	vclock.Advance(goSide(d))
 	r.log = append(r.log, fmt.Sprintf("FastForward(%dms)", d))
 	if r.holder >= 0 {
 		r.rem -= d
@@ -584,6 +767,7 @@ func (r *seqRun) heal(clearBreaker bool) {
 			r.inconclusive("could not reach the restarted store")
 			return
 		}
+		r.resync() // pings sent while the server was still down never arrived
 		r.log = append(r.log, "Heal(restart)+11s")
 		return
 	}
@@ -662,6 +846,9 @@ func (r *seqRun) conclude() {
 	c.Obs("histories_sequential", 1)
 	c.Obs("ops_sequential", int64(len(r.log)))
 	nontrivial := r.deniedByOther && (r.edge || r.lateRelease)
+	if r.isPlacement {
+		nontrivial = r.placedNontrivial
+	}
 	sig := []any{"seq", r.n}
 	for _, l := range r.log {
 		sig = append(sig, l)
@@ -1013,7 +1200,7 @@ type conc struct {
 	stop  bool
 	incon bool
 
-	base, exp int64 // script executions at the server, see seqRun
+	sent0, arr0 int64 // transport accounting, see seqRun
 }
 
 func newConc(c *kit.Case, s *srv, n int) *conc {
@@ -1024,17 +1211,25 @@ func newConc(c *kit.Case, s *srv, n int) *conc {
 	}
 	vclock.Advance(11 * time.Second)
 	s.dirty = false
-	h.base = s.passed.Load()
+	h.sent0, h.arr0 = s.cli.sent.Load(), s.arrived.Load()
 	return h
 }
 
-func (h *conc) accounted() bool { return h.s.passed.Load()-h.base == h.exp }
+// accounted: exactly the commands the client issued arrived at the server (the
+// concurrent families inject only error replies that go-redis does not retry, and
+// a call rejected by the client's breaker issues nothing, so this holds for
+// failed calls too). Only evaluated while no call is in flight.
+func (h *conc) accounted() bool { return h.s.surplus(h.sent0, h.arr0) == 0 }
 
-// viol reports a violation unless the server executed script commands that no
-// recorded call accounts for (client-side I/O retry: not judged).
+func (h *conc) retryEvidence() string {
+	return fmt.Sprintf("%d more commands arrived at the server than the client issued in this history: client-side I/O retry; %s", h.s.surplus(h.sent0, h.arr0), h.s.lastArrivals())
+}
+
+// viol reports a violation unless commands arrived at the server that the
+// client did not issue (client-side I/O retry: not judged).
 func (h *conc) viol(key, what string) {
 	if !h.accounted() {
-		h.inconclusive(fmt.Sprintf("script executions at the server do not add up (%d seen, %d accounted for: client-side I/O retry); not judged: %s", h.s.passed.Load()-h.base, h.exp, key))
+		h.inconclusive(h.retryEvidence() + "; not judged: " + key)
 		return
 	}
 	h.c.Viol(key, what, h.witness())
@@ -1053,7 +1248,7 @@ func (h *conc) exec(in cin) (cout, string) {
 		h.lk[in.I].SetExpire(in.S)
 	case kFF:
 		h.s.mr.FastForward(time.Duration(in.D) * time.Millisecond)
-		vclock.Advance(time.Duration(in.D) * time.Millisecond)
+		vclock.Advance(goSide(in.D))
 	case kGet:
 		v, err := h.s.mr.Get(h.key)
 		if err != nil {
@@ -1071,21 +1266,12 @@ func (h *conc) exec(in cin) (cout, string) {
 
 // one records a harness-sequential operation (between rounds).
 func (h *conc) one(g int, in cin) cout {
-	p0 := h.s.passed.Load()
 	call := kit.Stamp()
 	out, et := h.exec(in)
 	ret := kit.Stamp()
 	h.recs = append(h.recs, crec{G: g, In: in, Out: out, Call: call, Ret: ret, ErrText: et})
-	if in.K == kAcq || in.K == kRel {
-		d := h.s.passed.Load() - p0
-		if out.Err {
-			h.exp += d
-		} else {
-			h.exp++
-			if d != 1 && !h.stop {
-				h.inconclusive(fmt.Sprintf("the server executed %d script commands for one %s that returned without error (client-side I/O retry; %s)", d, in, h.s.lastArrivals()))
-			}
-		}
+	if (in.K == kAcq || in.K == kRel) && !h.stop && !h.accounted() {
+		h.inconclusive(fmt.Sprintf("after %s: %s", in, h.retryEvidence()))
 	}
 	return out
 }
@@ -1146,7 +1332,6 @@ func (h *conc) witness() map[string]any {
 // round runs the actors' plans concurrently (released together) and appends
 // their records. A generous wall-clock watchdog only ever yields inconclusive.
 func (h *conc) round(actors []*actor) bool {
-	p0 := h.s.passed.Load()
 	var ready, done sync.WaitGroup
 	start := make(chan struct{})
 	for _, a := range actors {
@@ -1177,24 +1362,13 @@ func (h *conc) round(actors []*actor) bool {
 		h.inconclusive("watchdog: a concurrent round did not finish within 120 s")
 		return false
 	}
-	// every call that returned without error must have been executed exactly once, every
-	// call that returned an error (injected error reply, breaker rejection) not at all
-	okOps := 0
-	for _, a := range actors {
-		for _, r := range a.recs {
-			if (r.In.K == kAcq || r.In.K == kRel) && !r.Out.Err {
-				okOps++
-			}
-		}
-	}
-	execd := h.s.passed.Load() - p0
 	for _, a := range actors {
 		h.recs = append(h.recs, a.recs...)
 		a.recs = nil
 	}
-	h.exp += int64(okOps)
-	if execd != int64(okOps) {
-		h.inconclusive(fmt.Sprintf("the server executed %d script commands for %d calls that returned without error (client-side I/O retry)", execd, okOps))
+	// all calls have returned: every command the client issued has arrived, and no other
+	if !h.accounted() {
+		h.inconclusive("after a concurrent round: " + h.retryEvidence())
 		return false
 	}
 	return true
@@ -1659,6 +1833,8 @@ func TestVerifC19(t *testing.T) {
 	kit.Run(t, "C19", "seq-pattern", kit.N(3000, 60000), seqPattern)
 	kit.Run(t, "C19", "seq-random", kit.N(4000, 80000), seqRandom)
 	kit.Run(t, "C19", "seq-outage", kit.N(1600, 25000), seqOutage)
+	kit.Run(t, "C19", "seq-lease-grid", kit.N(400, 6000), seqLeaseGrid)
+	kit.Run(t, "C19", "seq-placement", kit.N(600, 10000), seqPlacement)
 	kit.Run(t, "C19", "conc-own", kit.N(1500, 30000), concOwn)
 	kit.Run(t, "C19", "conc-stampede", kit.N(600, 12000), concStampede)
 	kit.Run(t, "C19", "conc-shared", kit.N(600, 12000), concShared)
